@@ -78,7 +78,6 @@ def wide_cases(rng, n):
 def make_cases(rng, tier, budget, wide=False):
     from .common import gen_forms
     cases = []
-    wide_list = wide_cases(random.Random(rng.getrandbits(64)), budget["wide"]) if (not wide and budget.get("wide")) else []
     for i in range(budget["models"]):
         r = random.Random(rng.getrandbits(64))
         w = wide_options(r, i) if wide else None
@@ -94,6 +93,8 @@ def make_cases(rng, tier, budget, wide=False):
         cases.append({"spec": spec, "meta": meta, "points": [{k: str(v) for k, v in p.items()} for p in pts], "probe": probe})
         if wide:
             cases[-1]["wide"] = w
+    # drawn AFTER the classic cases: their random stream is what it was before the wide input space was added
+    wide_list = wide_cases(random.Random(rng.getrandbits(64)), budget["wide"]) if (not wide and budget.get("wide")) else []
     step = max(1, len(cases) // max(1, len(wide_list)))
     for k, c in enumerate(wide_list):            # the wide cases are spread over the run (the large ones are slow)
         cases.insert(min(len(cases), k * (step + 1)), c)
